@@ -256,6 +256,11 @@ Definition inscribed_bbox (e : el) (target_shape : string) : res (option bbox) :
   else el_bbox e.
 
 Definition half : num := ndiv N (nofZ N 1) two.   (* 0.5 *)
+(* radii of a circle / ellipse circumscribing (inscribe = false) or inscribed in a w x h box *)
+Definition contain_circle_r (inscribe : bool) (w h : num) : num :=
+  if inscribe then half *. nmin N w h else half *. nmax N w h *. nsqrt2 N.
+Definition contain_ellipse_r (inscribe : bool) (l : num) : num :=
+  if inscribe then half *. l else half *. l *. nsqrt2 N.
 Definition position_from_bbox (e : el) (bb : bbox) (inscribe : bool) : el :=
   let w := bb_width N bb in let h := bb_height N bb in
   let '(cx, cy) := bb_center N bb in
@@ -263,11 +268,11 @@ Definition position_from_bbox (e : el) (bb : bbox) (inscribe : bool) : el :=
   if (String.eqb n "rect" || String.eqb n "box")%bool then
     eset (eset (eset (eset e "x" (fstr (bx1 bb))) "y" (fstr (by1 bb))) "width" (fstr w)) "height" (fstr h)
   else if String.eqb n "circle" then
-    let r := if inscribe then half *. nmin N w h else half *. nmax N w h *. nsqrt2 N in
+    let r := contain_circle_r inscribe w h in
     eset (eset (eset e "cx" (fstr cx)) "cy" (fstr cy)) "r" (fstr r)
   else if String.eqb n "ellipse" then
-    let rx := if inscribe then half *. w else half *. w *. nsqrt2 N in
-    let ry := if inscribe then half *. h else half *. h *. nsqrt2 N in
+    let rx := contain_ellipse_r inscribe w in
+    let ry := contain_ellipse_r inscribe h in
     eset (eset (eset (eset e "cx" (fstr cx)) "cy" (fstr cy)) "rx" (fstr rx)) "ry" (fstr ry)
   else e.
 
